@@ -34,6 +34,9 @@ def check_C11(rep, prog, tier):
     A.ob_append(rep, prog, N - 2, dl)
     walk_order(rep, prog, tier, dl)
     written_index_order(rep, prog, tier, dl)
+    # "every listing": the stitched listing over mixed-depth symbolic paths (the obligation of C08/C12), whose oracle is the
+    # documented order - a listing that resumes in string or byte order is out of order exactly on such paths
+    subtree_listing(rep, prog, tier, tier_deadline(tier, 240, 1200))
 
 
 WALK_SHAPES_QUICK = [(['F', 'F', 'F'], [1, 2]), (['F', 'S', ('D', [])], [2, 1]),
@@ -460,6 +463,9 @@ def check_C07(rep, prog, tier):
     cases = _bcases(shapes, ['none', 'crash'] if tier == 'quick' else ['none', 'crash', 'empty_crash', 'fault'], prior='same')
     cases += _bcases([('F', [1])], ['none', 'crash'], prior='built', prior_kinds='FF', prior_classes=[2, 3])
     cases += _bcases([('F', [1])], ['fault'], prior='same')
+    if tier == 'quick':
+        # a kill inside a write leaves a zero-length file: the next backup may complete it, and removes nothing
+        cases += _bcases([('F', [1])], ['empty_crash'])
     rep.bounds = {'cases': [BC.case_name(c) for c in cases]}
     rep.assumptions += BC.COMMON_ASSUMPTIONS + ['storage operations are atomic (also for the racing-backups obligation)']
     BC.run_cases(rep, prog, cases, dl, 'C07', 'a backup (complete, interrupted, faulted or resumed) only adds files; the new band id is above every existing one',
